@@ -343,6 +343,14 @@ def check_property(prop, tier, a):
                             [f"{f}: {l}" for f, l in fn_levels.items() if l != "P"] + [f"undecided: {k}" for _, _, k in undecided])
                         + " -- the bounded native harness is the only decider for those parts on this run"),
     }
+    if tier == "thorough" and not violations:
+        # contract adequacy (informational): in-memory mutants of the functions under contract, each must lose an obligation
+        try:
+            import mutcat
+            cov["mutation_adequacy"] = dict(mutcat.run(prop), note="in-memory mutants of functions under contract (mutcat.py); a mutant "
+                                            "counts as detected only when an obligation is refuted; never affects the verdict")
+        except Exception as e:      # noqa: BLE001
+            cov["mutation_adequacy"] = {"error": f"{type(e).__name__}: {e}"[:300]}
     ev = {"property_id": prop, "tier": tier, "seed": seed, "level": level, "coverage": cov,
           "assumptions": trusted, "wall_s": round(time.time() - t0, 2), "violations": len(violations)}
     os.makedirs(os.path.join(VERIF, "evidence"), exist_ok=True)
